@@ -16,6 +16,7 @@ import QModel.ConstraintsIO
 import QModel.SerialIO
 import QModel.ResultsDictIO
 import QModel.FBDriverIO
+import QModel.LogTableIO
 /-! Model driver: one operation per line on stdin, one canonical result line on stdout.
     Run with `lake env lean --run Driver.lean`. -/
 
@@ -41,6 +42,7 @@ def dispatch (line : String) : String :=
     else if cmd = "cadj" || cmd = "fixrot" || cmd = "c12trial" then Constr.IO.handle ws
     else if cmd.startsWith "c08." || cmd.startsWith "c07." then Ser.IO.handle ws
     else if cmd = "fbd" then FBD.IO.handle ws
+    else if cmd = "logt" then LogT.IO.handle ws
     else "bad-op"
 
 partial def loop (h : IO.FS.Stream) (out : IO.FS.Stream) : IO Unit := do
